@@ -239,7 +239,12 @@ def check_stop(rep, tier, seed):
     r = core.rng(seed, "C07")
     cases = []
     positions = [roots.START, roots.PERFT[1], roots.PERFT[2], "8/8/4k3/8/8/3K4/4P3/8 w - - 0 1",
-                 "r3k2r/8/8/8/8/8/8/R3K2R w KQkq - 0 1", "4k3/P6P/8/8/8/8/p6p/4K3 w - - 0 1"]
+                 "r3k2r/8/8/8/8/8/8/R3K2R w KQkq - 0 1", "4k3/P6P/8/8/8/8/p6p/4K3 w - - 0 1",
+                 # the first piece in scan order cannot move legally (side to move in check / pinned piece):
+                 # a fallback taken from the unchecked list would be illegal here
+                 "4r2k/8/8/8/8/8/8/R3K3 w - - 0 1", "7k/8/8/8/8/8/8/rNK5 w - - 0 1", "r3k3/8/8/8/8/8/8/4R2K b - - 0 1",
+                 "k7/8/8/8/8/8/8/KNr5 w - - 0 1", "rnb1kbnr/pppp1ppp/8/4p3/6Pq/5P2/PPPPP2P/RNBQKBNR w KQkq - 1 3",
+                 "4k3/4r3/8/8/8/8/3N1n2/4K3 w - - 0 1"]
     if tier == "thorough":
         positions += roots.ALL
     plan = []
@@ -362,9 +367,48 @@ def check_pruning(rep, tier, seed):
     r = core.rng(seed, "C09")
     n = 60 if tier == "quick" else 600
     cases = []
+    # hard cases kept from past failures (seeded change C09-m2: a pruning rule that forgets en passant one ply above the leaves)
+    for f, d in [("8/8/4K3/8/3p4/8/2PkP3/8 w - - 0 1", 2), ("8/8/4K3/2P5/k1p5/P7/3P4/8 w - - 0 1", 2),
+                 ("8/4pk2/8/5PK1/1P5p/8/6P1/8 w - - 0 1", 3), ("7k/8/1P6/4p3/3N4/8/8/6K1 w - - 0 1", 2)]:
+        cases.append(["new " + f, "obs", "ttnew", "search %d -1 1" % d] + ["refroot %d" % k for k in range(1, d + 1)]
+                     + ["ttnew", "searchroot %d -1 1" % d])
+    # sparse pawn endings built around a double push that lands beside an enemy pawn (en passant inside the tree)
+    for i in range(40 if tier == "quick" else 1500):
+        fl = r.randrange(8)
+        nb = fl + r.choice([-1, 1])
+        if not 0 <= nb < 8:
+            continue
+        white_pushes = r.random() < 0.5
+        squares = {}
+        if white_pushes:
+            squares[(1, fl)] = "P"; squares[(3, nb)] = "p"
+        else:
+            squares[(6, fl)] = "p"; squares[(4, nb)] = "P"
+        for _ in range(r.randint(0, 3)):
+            rr, cc = r.randrange(1, 7), r.randrange(8)
+            squares.setdefault((rr, cc), r.choice("Pp"))
+        free = [(a, b) for a in range(8) for b in range(8) if (a, b) not in squares]
+        wk = r.choice(free); free.remove(wk)
+        free = [x for x in free if max(abs(x[0] - wk[0]), abs(x[1] - wk[1])) > 1]
+        bk = r.choice(free)
+        squares[wk] = "K"; squares[bk] = "k"
+        rows = []
+        for rr in range(7, -1, -1):
+            row, e = "", 0
+            for cc in range(8):
+                if (rr, cc) in squares:
+                    row += (str(e) if e else "") + squares[(rr, cc)]; e = 0
+                else:
+                    e += 1
+            rows.append(row + (str(e) if e else ""))
+        f = "/".join(rows) + (" w" if white_pushes else " b") + " - - 0 1"
+        d = 2 if tier == "quick" else r.choice([2, 3])
+        cases.append(["new " + f, "obs", "ttnew", "search %d -1 1" % d] + ["refroot %d" % k for k in range(1, d + 1)])
     for i in range(n):
         root = SMALL[i % len(SMALL)]
-        d = 2 if tier == "quick" else r.choice([2, 2, 3])
+        # the unpruned reference (in particular its quiescence) is exponential: depth 3 only on very small material
+        men = sum(1 for ch in root.split()[0] if ch.isalpha())
+        d = 2 if (tier == "quick" or men > 5) else r.choice([2, 3])
         ops = walk_prefix(r, root, 5) + ["ttnew", "search %d -1 1" % d] + ["refroot %d" % k for k in range(1, d + 1)]
         # a second search of the same root with a history table left by the first one is implied by iteration;
         # fresh single-depth root search as well
